@@ -41,14 +41,20 @@ func (c *CompileErrorList) Error() string {
 			after := ""
 			start := 0
 			if l == e.StartL {
-				before = line[:e.StartC]
-				line = line[e.StartC:]
 				start = e.StartC
+				if start > len(line) { // because the "\r" of a "\r\n" was erased
+					start = len(line)
+				}
+				before = line[:start]
+				line = line[start:]
 			}
 			if l == e.EndL {
 				idx := e.EndC - start + 1
 				if idx >= len(line) { // because newline was erased
 					idx = len(line) - 1
+				}
+				if idx < 0 {
+					idx = 0
 				}
 				after = line[idx:]
 				line = line[:idx]
